@@ -13,7 +13,7 @@ Excluded construct (known finding C02/with-outer, see known/C02.txt): a `with` s
 (including nested functions) references a renamable binding that is declared outside the innermost
 function containing that `with`.  Generators never reference an outer local from inside a with body.
 Two more excluded constructs (known findings): a loop body block that re-declares the loop variable's name
-and refers to that name before the inner declaration (C02/tdz); `var` inside a class static block (C02/static-var).
+and refers to that name before the inner declaration (C02/tdz); declarations inside a class static block (C02/static-var, C02/static-let).
 """
 
 # the order in which the minifier hands out names is private to it; these are all names of length 1
@@ -268,7 +268,7 @@ def class_scopes(rnd):
         'function f(%(a)s){var %(b)s=class %(c)s{static p=%(a)s;q=%(a)s+"q";static who(){return %(c)s.p}};out(%(b)s.who(),new %(b)s().q,typeof %(c)s,typeof %(g)s)}f("A");',
         'function f(%(a)s){let %(b)s={%(a)s,%(c)s:%(a)s,[%(a)s]:1,m(%(d)s){return %(d)s+%(a)s},get g(){return %(a)s},set s(%(d)s){out(%(d)s,%(a)s)}};%(b)s.s="S";out(%(b)s.%(a)s,%(b)s.%(c)s,%(b)s.m("M"),%(b)s.g,Object.keys(%(b)s))}f("A");',
         'function f(){let {%(a)s,%(b)s:%(c)s,...%(d)s}={%(a)s:1,%(b)s:2,z:3};out(%(a)s,%(c)s,%(d)s);({%(a)s,%(b)s:%(c)s}={%(a)s:4,%(b)s:5});out(%(a)s,%(c)s,typeof %(g)s)}f();',
-        'function f(%(a)s){class %(b)s{static{let %(c)s=%(a)s+"s";let %(d)s=%(c)s;out(%(c)s,%(d)s)}}out(typeof %(c)s,typeof %(g)s)}f("A");',   # no `var` in a static block: known finding C02/static-var
+        'function f(%(a)s,%(c)s){class %(b)s{static{out(%(a)s,%(c)s,typeof %(d)s)}static %(d)s=%(a)s}out(%(b)s.%(d)s,typeof %(g)s)}f("A","C");',   # no declarations in a static block: known findings C02/static-var, C02/static-let
     ]
     return rnd.choice(forms) % dict(a=a, b=b, c=c, d=d, g=g)
 
